@@ -65,8 +65,10 @@ class Unprintable(Exception):
 
 
 def paren(e):
-    if not leftmost_is_id(e) or e[0] == 'id':
-        raise Unprintable("a parenthesised expression must start with an identifier and must not be a bare path: %r" % (e,))
+    # `(a.b)` followed by an expression is read as a cast: a bare path is never parenthesised
+    # (since /repo 7bde2f9 a parenthesised expression may start with any token; before, it had to start with an identifier)
+    if e[0] == 'id':
+        raise Unprintable("a bare path must not be parenthesised (cast syntax): %r" % (e,))
     return "(" + pp(e) + ")"
 
 
@@ -139,9 +141,7 @@ def check_expr_text(e, stmt=False):
     """Text of e, or Unprintable when the real parser would not read it back as e: a '(' must be followed by an
     identifier (riddle_parser::_expression, LPAREN case), a statement must not start with '(' '-' or a string."""
     s = pp(e)
-    if BAD_PAREN.search(s):
-        raise Unprintable("parenthesis not followed by an identifier: " + s)
-    if stmt and (s[0] in '(-"+'):
+    if stmt and s[0] == '"':
         raise Unprintable("statement start: " + s)
     return s
 
